@@ -1,7 +1,7 @@
 """C14 — hazard pointers: nothing is reclaimed while protected; garbage stays bounded (structural part)."""
 from core import strip, is_field, order_ge, key_str, key_mentions
 from facts import AnalysisBroken
-from rules import (nodeset, callpred, atom_from, reach, ev, Unevaluable, is_full_fence, is_param_load, is_var_load, summary_value)
+from rules import (check_init, nodeset, callpred, atom_from, reach, ev, Unevaluable, is_full_fence, is_param_load, is_var_load, summary_value)
 from symword import Machine
 import hazard
 
@@ -296,3 +296,23 @@ def run(ctx):
             if got != need:
                 bad = bad or "plist_size %d, needed 6: reallocates = %s" % (ps, got)
     o.check(bad is None, "capacity table", bad, site=sc.loc, construct="plist capacity")
+    o = ctx.ob("recycle", "", "FIFO nodes go back to the free pool (or to free()) only through the gc callback that hazard_pointer_scan invokes; "
+               "fiber_manager_return_mpmc_node is called directly only for a node that was never published (failed semaphore init)",
+               "recycling a node directly after popping it skips the hazard check: another popper still dereferences it (ABA / use-after-free)")
+    bad = None
+    gcb = "fiber_manager_return_mpmc_node_internal"
+    for fn, c in P.callers_of("fiber_manager_return_mpmc_node"):
+        if fn.name != "fiber_semaphore_init":
+            bad = bad or ("fiber_manager_return_mpmc_node called from %s" % fn.name, c)
+    for fn, c in P.callers_of(gcb):
+        if fn.name != "fiber_manager_return_mpmc_node":
+            bad = bad or ("%s called directly from %s" % (gcb, fn.name), c)
+    for fn in P.unique_functions():
+        for c in fn.calls("lockfree_ring_buffer_trypush"):
+            if key_mentions(fn.key(fn.args(c)[0], True), lambda x: x[0] == "glob" and x[1] == "fiber_free_mpmc_nodes") and fn.name != gcb:
+                bad = bad or ("the node pool is refilled from %s" % fn.name, c)
+    g = P.fn("fiber_manager_get_mpmc_node")
+    gs = [s for s in g.stores() if is_field(g.target_key(s.target), None, "gc_function")]
+    if not gs or not any(n.k == "DeclRefExpr" and n.name == gcb for s in gs for n in s.value.walk()):
+        bad = bad or ("freshly allocated nodes do not get the recycling gc callback", g.loc)
+    o.check(bad is None, "recycling only through the gc callback", bad[0] if bad else None, site=bad[1] if bad else None, construct="mpmc node recycling")
